@@ -123,11 +123,14 @@ class Context:
                 known = inventory().get(rel)
                 if known is not None and os.environ.get("VERIF_NO_INLINE") != "1":
                     self.cache["inlined_helpers:" + rel] = inline_new_helpers(mod, known)
+                from .pyutil import unroll_literal_dispatch_inplace
+                unroll_literal_dispatch_inplace(mod)
                 normalise_polarity(mod)
                 inline_temporaries(mod)
                 if known is not None and self.cache.get("inlined_helpers:" + rel):
-                    from .inline_helpers import drop_self_assignments
+                    from .inline_helpers import drop_self_assignments, tidy_flags
                     drop_self_assignments(mod)
+                    tidy_flags(mod)
             for parent in ast.walk(mod):
                 for child in ast.iter_child_nodes(parent):
                     child._parent = parent  # type: ignore[attr-defined]
